@@ -164,13 +164,13 @@ def reduction_rules(chk, facts, adt, op, rule, combine_trait, lens=(0, 1, 2, 3))
     chk.add(rule, "%s fields are private" % short, PROVED if C.private else REFUTED, "")
     # value(mask)
     b = C.method("value")
-    for L in lens:
-        key = "%s::value over %d terms" % (short, L)
+    for names in [["c%d" % j for j in range(L)] for L in lens] + [["c0", "c0"], ["c0", "c1", "c0"], ["c0", "c0", "c0"]]:
+        L = len(names)
+        key = "%s::value over terms %s" % (short, names) if len(set(names)) != L else "%s::value over %d terms" % (short, L)
         try:
             it = Interp(facts)
             install_stubs(it, facts, C.elem)
             st = State()
-            names = ["c%d" % j for j in range(L)]
             v0 = C.mk(st, 4, names)
             outs = it.call_body(b, [arg_for(b["sig"]["inputs"][0], v0, st), watoms(64, "m")], st, {})
             o, v, d = single_return(outs)
@@ -249,41 +249,67 @@ def reduction_rules(chk, facts, adt, op, rule, combine_trait, lens=(0, 1, 2, 3))
                 except Undecided as ex:
                     v, d = UNDECIDED, ex.cause
                 chk.add(rule, key, v, d, where=where_of(bd))
-    # is_zero / is_one soundness
-    for L in (0, 1, 2):
+    # is_zero / is_one soundness (semantic): whenever the predicate can be true, the denoted function
+    # - with value(c)=1 for terms assumed is_one and value(c)=0 for terms assumed is_zero - is that constant
+    import itertools as _it
+    for names in [[], ["c0"], ["c0", "c1"], ["c0", "c1", "c2"], ["c0", "c0"]]:
+        L = len(names)
         for mname in ("is_zero", "is_one"):
             b = C.method(mname)
-            key = "%s::%s with %d terms" % (short, mname, L)
+            key = "%s::%s with terms %s" % (short, mname, names)
             try:
-                it = Interp(facts)
+                it = Interp(facts, max_paths=256)
                 install_stubs(it, facts, C.elem)
                 st = State()
-                names = ["c%d" % j for j in range(L)]
                 v0 = C.mk(st, 4, names)
                 outs = it.call_body(b, [arg_for(b["sig"]["inputs"][0], v0, st)], st, {})
                 v, d = PROVED, ""
+                uniq = sorted(set(names))
+                pred = "is_one" if mname == "is_one" else "is_zero"
                 for o in outs:
+                    s_, w_ = pc_status(o.pc)
+                    if s_ == "unsat":
+                        continue
                     if o.kind != "return":
-                        s_, w_ = pc_status(o.pc)
-                        if s_ != "unsat":
-                            v, d = UNDECIDED, "possible panic"
-                        continue
+                        v, d = UNDECIDED, "possible panic"
+                        break
                     r = o.value
-                    can_true = not (isinstance(r, W) and r.val == 0)
-                    if not can_true:
-                        continue
-                    if mname == "is_zero":
-                        if L != 0:
-                            v, d = REFUTED, "is_zero can hold with %d terms present (whose OR/XOR need not be zero)" % L
-                    else:
-                        # may be true only as "some term is the constant one" (or: the only term, for XOR)
-                        okset = {B.atom("is_one(c%d)" % j) for j in range(L)}
-                        if L == 0:
-                            v, d = REFUTED, "is_one holds for the empty (constant zero) form"
-                        elif not (isinstance(r, W) and r.val is None and r.bits[0] in okset):
-                            v, d = UNDECIDED, "is_one is %r" % (r,)
-                        elif op == "xor" and L != 1:
-                            v, d = REFUTED, "is_one can hold for an XOR of %d terms" % L
+                    if not isinstance(r, W) or r.width != 1 or (r.val is None and r.bits[0] is None):
+                        v, d = UNDECIDED, "result %r" % (r,)
+                        break
+                    for vals in _it.product((0, 1), repeat=len(uniq)):
+                        asg = {B.ATOMS.get("%s(%s)" % (pred, nm)): x for nm, x in zip(uniq, vals)}
+                        full = dict(asg)
+                        conds_ok = True
+                        for c in o.pc:
+                            if isinstance(c, W) and c.val is None and c.bits[0] is not None:
+                                if not set(c.bits[0][0]) <= set(full):
+                                    conds_ok = None
+                                    break
+                                if not B.eval_bit(c.bits[0], full):
+                                    conds_ok = False
+                                    break
+                        if conds_ok is None:
+                            v, d = UNDECIDED, "path condition over other atoms"
+                            break
+                        if not conds_ok:
+                            continue
+                        rv = r.val if r.val is not None else (B.eval_bit(r.bits[0], full) if set(r.bits[0][0]) <= set(full) else None)
+                        if rv is None:
+                            v, d = UNDECIDED, "result depends on other atoms"
+                            break
+                        if not rv:
+                            continue
+                        known = {nm for nm, x in zip(uniq, vals) if x}
+                        f = ZERO
+                        for nm in names:
+                            f = red(f, (ONE if mname == "is_one" else ZERO) if nm in known else val_atom(nm, "m"))
+                        want = ONE if mname == "is_one" else ZERO
+                        if f != want:
+                            v, d = REFUTED, "%s holds for terms %s when %s are constant %s, but the form then denotes %s" % (mname, names, sorted(known) or "none", "one" if mname == "is_one" else "zero", B.describe(f))
+                            break
+                    if v != PROVED:
+                        break
             except Undecided as ex:
                 v, d = UNDECIDED, ex.cause
             chk.add(rule, key, v, d, where=where_of(b))
